@@ -251,6 +251,17 @@ def build(case):
     n = case["n"]
     per = case.get("meta") == "per-maze"
     mazes = [L.solved(it["g"], it["sol"], meta=_hand_meta(it["g"], it["sol"]) if per else None) for it in case["items"]]
+    # array provenance is not part of a maze's value: solutions may be stored with a narrower integer width (as after loading a
+    # minimal-format file) and connection lists may be views into one packed array
+    from maze_dataset.maze.lattice_maze import SolvedMaze
+
+    packed = np.stack([np.asarray(m.connection_list) for m in mazes]) if mazes else None
+    for i, it in enumerate(case["items"]):
+        dt = it.get("dtype")
+        if dt:
+            m = mazes[i]
+            mazes[i] = SolvedMaze(connection_list=packed[i] if it.get("view") else m.connection_list, solution=np.array(it["sol"], dtype=dt),
+                                  generation_meta=m.generation_meta)
     cfg = MazeDatasetConfig(name="f", grid_n=n, n_mazes=len(mazes))
     return MazeDataset(cfg, mazes)
 
@@ -259,6 +270,8 @@ def check(case: dict):
     ds = build(case)
     items = [{"g": it["g"], "sol": it["sol"]} for it in case["items"]]
     applied, interesting, labels, _, _ = run_sequence(ds, items, case["ops"])
+    if len({it.get("dtype") for it in case["items"]}) > 1:
+        labels.append("mixed-dtypes")
     return {"nt": applied >= 2 and interesting, "labels": labels + [f"meta:{case.get('meta')}"]}
 
 
@@ -362,6 +375,10 @@ def hand_items(draw, n, lo=3, hi=12):
                 comp = sorted(M.component(a, s))
                 e = draw(st.sampled_from(comp))
                 item["sol"] = [list(q) for q in M.shortest_path(a, s, e)]
+        item = {k: v for k, v in item.items() if k in ("g", "sol")}
+        if draw(st.integers(0, 2)) == 0:
+            item["dtype"] = draw(st.sampled_from(["int8", "int8", "int16", "int32"]))
+            item["view"] = draw(st.booleans())
         pos = draw(st.sampled_from(["end", "end", "front", "mid"]))
         if pos == "front":
             items.insert(0, item)
